@@ -24,8 +24,8 @@ import (
 // The core must not use maps, append or anything else the runtime instruments.
 
 const (
-	maxTasks = 96
-	maxObjs  = 96
+	maxTasks = 3000
+	maxObjs  = 3000
 )
 
 const (
@@ -92,8 +92,34 @@ var debugSched = os.Getenv("VSIM_DEBUG_SCHED") != ""
 
 // NewSched returns a scheduler drawing from tape.
 func NewSched(tape *Tape, maxSteps int) *Sched {
-	s := &Sched{tape: tape, MaxSteps: maxSteps}
+	var s *Sched
+	if n := len(schedPool); n > 0 {
+		s = schedPool[n-1]
+		schedPool = schedPool[:n-1]
+	} else {
+		s = &Sched{}
+	}
+	s.tape = tape
+	s.MaxSteps = maxSteps
 	return s
+}
+
+var schedPool []*Sched
+
+// Release recycles a scheduler after End (its counters must have been read).
+func (s *Sched) Release() {
+	for i := 0; i < s.ntasks; i++ {
+		s.tasks[i] = task{}
+	}
+	for i := 0; i < s.nobjs; i++ {
+		s.objs[i] = obj{}
+	}
+	s.ntasks, s.nobjs, s.cur, s.tape = 0, 0, 0, nil
+	s.Steps, s.MaxSteps, s.Switches, s.NonDefault, s.ndecisions, s.SchedHash, s.TailHeadRace = 0, 0, 0, 0, 0, 0, 0
+	s.deadlock, s.DeadlockS, s.abort, s.active, s.OnAbort = false, "", "", false, nil
+	if len(schedPool) < 4 {
+		schedPool = append(schedPool, s)
+	}
 }
 
 // Begin installs the scheduler; the calling goroutine becomes task 0.
@@ -584,3 +610,14 @@ func (s *Sched) Decisions() []Decision {
 
 // Tasks returns the number of tasks created.
 func (s *Sched) Tasks() int { return s.ntasks }
+
+// SchedStats is a copy of the scheduler's counters.
+type SchedStats struct {
+	Steps, Switches, NonDefault, TailHeadRace, Tasks int
+	SchedHash                                        uint64
+}
+
+// Stats returns the counters.
+func (s *Sched) Stats() SchedStats {
+	return SchedStats{s.Steps, s.Switches, s.NonDefault, s.TailHeadRace, s.ntasks, s.SchedHash}
+}
